@@ -239,6 +239,12 @@ func runSnap(g *Grid, poly [][]Pt, ids []int, cfg snap.Config, timeout time.Dura
 }
 
 func runSnapFloat(g *Grid, fp geom.Polygon, ids []int, cfg snap.Config, timeout time.Duration) *Result {
+	return runSnapShared(g, fp, append([]int(nil), ids...), cfg, timeout)
+}
+
+// runSnapShared hands the caller's own values to the implementation: the polygon and the id slice are NOT copied, so a
+// caller that keeps using them (snapping the same value again, refilling one id buffer) sees what the call did to them.
+func runSnapShared(g *Grid, fp geom.Polygon, ids []int, cfg snap.Config, timeout time.Duration) *Result {
 	res := &Result{}
 	done := make(chan struct{})
 	t0 := time.Now()
@@ -250,8 +256,7 @@ func runSnapFloat(g *Grid, fp geom.Polygon, ids []int, cfg snap.Config, timeout 
 				res.Stack = string(debug.Stack())
 			}
 		}()
-		idsCopy := append([]int(nil), ids...)
-		res.Raw = snap.SnapPolygon(fp, g.TMS, idsCopy, cfg)
+		res.Raw = snap.SnapPolygon(fp, g.TMS, ids, cfg)
 	}()
 	select {
 	case <-done:
